@@ -213,6 +213,19 @@ PROPS = {
                 "of the event log",
         "assumptions": FLEET_ASSUME + ["the race detector only sees the interleavings executed; interleavings finer than the yield points are covered only as far as the detector's happens-before analysis generalises them"],
     },
+    "C15": {
+        "level": "exploration",
+        "profiles": [{"name": "names-sim", "weight": 1}],
+        "rule": "each case takes one raw instance name (dots, underscores, double underscores, unicode, spaces, slashes, 240 characters) and one database name over the safe "
+                "alphabet; a real syncer uploads 2-4 snapshots at simulated instants separated by gaps that produce nanosecond/second/minute/day carries; the stored names are "
+                "parsed by an independent parser written from the documented format and by ParseName (round trip, safe character set, time within the upload window, byte order = time "
+                "order); a real receiver then lists the bucket among foreign and near-miss names and must deliver exactly the newest snapshot and load nothing else; a seeded "
+                "sweep builds and parses names for timestamps across 1970-2262 (epoch, 2^31 s, 2038, 2099, 2262-04-11 and nanosecond neighbours) incl. extra name items, and a list "
+                "of arbitrary strings is fed to the parser; non-trivial = at least two uploads; distinct = distinct SHA-256 of the event log",
+        "real": "Syncer.instanceID/SendOnce, snapshot.NameInfo.BuildName/ParseName, receiver.RunOnce/Next, Downloader",
+        "stub": "bucket (SimBucket, no faults), clock (testing/synctest)",
+        "assumptions": ["the name functions are pure: beyond the upload/delivery path this is seeded input generation, and arbitrary strings are a fixed list plus what the bucket holds"],
+    },
 }
 
 ALL_PROFILES = sorted({p["name"] for c in PROPS.values() for p in c["profiles"]})
@@ -301,4 +314,10 @@ MANIFEST_TEXT = {
                     "and released is reported with the states of the goroutines involved. Cancellation: every fleet run ends by cancelling every instance at an arbitrary yield.",
             "note": SIM_NOTE + " The race part covers executed interleavings only; conc-sim uses wall-clock polling of goroutine states outside the fake clock.",
             "technique": "deterministic simulation in the -race build (scheduler hand-off hidden from the detector) + API-level schedule simulation with goroutine-dump quiescence"},
+    "C15": {"text": "Names travel the real path: a real syncer with an arbitrary raw instance name uploads at simulated instants, an independent parser and ParseName must agree on the "
+                    "stored names (round trip, safe alphabet, order = time), a real receiver among foreign and near-miss objects must pick exactly the newest; plus a seeded build/parse sweep "
+                    "over 1970-2262.",
+            "note": "The name functions themselves are pure; the simulation covers the upload/delivery path and otherwise adds seeded generation, shrinking and replay. Simulated uploads happen "
+                    "near the bubble's start time (2000-01-01); other eras are reached only by the build/parse sweep.",
+            "technique": "deterministic simulation of the upload/listing/delivery path on the fake clock + seeded sweep of the name builder/parser against an independent parser"},
 }
